@@ -21,6 +21,8 @@ func main() {
 		out, err = trRandom(os.Args[2])
 	case "validate":
 		out, err = trValidate(os.Args[2])
+	case "facts":
+		out, err = trFacts(os.Args[2])
 	default:
 		err = fmt.Errorf("unknown translator %s", os.Args[1])
 	}
